@@ -6,6 +6,7 @@ import (
 	"go/token"
 	"go/types"
 	"os"
+	"sort"
 	"strings"
 
 	"verif/engine/smt"
@@ -91,6 +92,7 @@ type Executor struct {
 	MaxSwitches int
 	shallowTypes []types.Type
 	usesLower    bool
+	affixes      map[string]bool // "uf_hasprefix|lit" / "uf_hassuffix|lit" asked of some string variable
 	// witnesses: solver models of complete paths, for validating the translation against the native build
 	WitnessMax int
 	Witnesses  []Witness
@@ -100,7 +102,7 @@ type Executor struct {
 }
 
 func NewExecutor(prog *ssa.Program, solver *smt.Session) *Executor {
-	ex := &Executor{Prog: prog, Solver: solver, Intr: map[string]Intrinsic{}, Redir: map[string]*ssa.Function{},
+	ex := &Executor{Prog: prog, Solver: solver, Intr: map[string]Intrinsic{}, affixes: map[string]bool{}, Redir: map[string]*ssa.Function{},
 		globals: map[*ssa.Global]*Obj{}, BaseHeap: map[*Obj]Val{}, LoopCap: 40, MaxSwitches: 3, MaxPaths: 200000, MaxSteps: 2000000,
 		seenViol: map[string]bool{}, Overrides: map[string]*ssa.Function{}, Params: map[string]int{}}
 	ex.Stats.Reach = map[string]int{}
@@ -262,6 +264,16 @@ func (ex *Executor) curPos(st *State) string {
 	return ""
 }
 
+func (ex *Executor) affixList() [][2]string {
+	var out [][2]string
+	for k := range ex.affixes {
+		i := strings.Index(k, "|")
+		out = append(out, [2]string{k[:i], k[i+1:]})
+	}
+	sort.Slice(out, func(i, j int) bool { return out[i][0]+out[i][1] < out[j][0]+out[j][1] })
+	return out
+}
+
 func (ex *Executor) ndVars(st *State) []*smt.Term {
 	seen := map[int]bool{}
 	vars := map[string]*smt.Term{}
@@ -276,6 +288,11 @@ func (ex *Executor) ndVars(st *State) []*smt.Term {
 				delete(vars, r.T.Name)
 				if v.Sort == smt.String && smt.StrAsInt && ex.usesLower {
 					out = append(out, smt.Lower(v))
+				}
+				if v.Sort == smt.String {
+					for _, a := range ex.affixList() {
+						out = append(out, smt.App(a[0], smt.Bool, v, smt.StrC(a[1])))
+					}
 				}
 			}
 		}
